@@ -285,6 +285,7 @@ type scenario struct {
 	CtxDeadline  time.Duration // kind 2
 	Timeout      time.Duration // Dialer.Timeout (0 none)
 	ConnectDelay time.Duration
+	IgnoreCtx    bool // NetDial does not look at its context (a custom dialer may not)
 	TLS          bool
 	Wrap         bool
 	Peer         int // 0 responsive 1 rejecting 2 silent 3 write-blocking
@@ -297,8 +298,8 @@ type scenario struct {
 }
 
 func (s scenario) String() string {
-	return fmt.Sprintf("ctx=%d(dl=%v) timeout=%v connect=%v tls=%v wrap=%v peer=%d respDelay=%v segs=%d gap=%v trailing=%v rbuf=%d segmax=%d",
-		s.CtxKind, s.CtxDeadline, s.Timeout, s.ConnectDelay, s.TLS, s.Wrap, s.Peer, s.RespDelay, s.Segs, s.Gap, s.Trailing, s.RBuf, s.SegMax)
+	return fmt.Sprintf("ctx=%d(dl=%v) timeout=%v connect=%v(ignoreCtx=%v) tls=%v wrap=%v peer=%d respDelay=%v segs=%d gap=%v trailing=%v rbuf=%d segmax=%d",
+		s.CtxKind, s.CtxDeadline, s.Timeout, s.ConnectDelay, s.IgnoreCtx, s.TLS, s.Wrap, s.Peer, s.RespDelay, s.Segs, s.Gap, s.Trailing, s.RBuf, s.SegMax)
 }
 
 // cancelPlan says when the harness cancels the caller's context.
@@ -384,7 +385,9 @@ func execute(sc scenario, plan cancelPlan) (o *outcome) {
 		}
 		d := ws.Dialer{Timeout: sc.Timeout, ReadBufferSize: sc.RBuf}
 		d.NetDial = func(dctx context.Context, network, addr string) (net.Conn, error) {
-			if sc.ConnectDelay > 0 {
+			if sc.IgnoreCtx {
+				time.Sleep(sc.ConnectDelay)
+			} else if sc.ConnectDelay > 0 {
 				tm := time.NewTimer(sc.ConnectDelay)
 				defer tm.Stop()
 				select {
@@ -393,7 +396,7 @@ func execute(sc scenario, plan cancelPlan) (o *outcome) {
 					return nil, dctx.Err()
 				}
 			}
-			if err := dctx.Err(); err != nil {
+			if err := dctx.Err(); err != nil && !sc.IgnoreCtx {
 				return nil, err
 			}
 			c := newConn(start)
@@ -433,13 +436,19 @@ func execute(sc scenario, plan cancelPlan) (o *outcome) {
 				// would fire in an order the harness does not control.
 				var sendFrom func(i int)
 				sendFrom = func(i int) {
-					for ; i < len(segs); i++ {
-						c.deliver(segs[i])
-						if sc.Gap > 0 && i+1 < len(segs) {
-							next := i + 1
-							time.AfterFunc(sc.Gap, func() { sendFrom(next) })
-							return
+					if sc.Gap == 0 {
+						// Same instant: one atomic delivery, else the reader
+						// could observe a half-delivered burst.
+						var all []byte
+						for ; i < len(segs); i++ {
+							all = append(all, segs[i]...)
 						}
+						c.deliver(all)
+						return
+					}
+					c.deliver(segs[i])
+					if i+1 < len(segs) {
+						time.AfterFunc(sc.Gap, func() { sendFrom(i + 1) })
 					}
 				}
 				if sc.RespDelay == 0 {
@@ -448,11 +457,19 @@ func execute(sc scenario, plan cancelPlan) (o *outcome) {
 					time.AfterFunc(sc.RespDelay, func() { sendFrom(0) })
 				}
 			}
-			if plan.Kind == "op" || plan.Kind == "unforced" {
-				c.hook = func(k int, op, phase string) {
-					if k == plan.K && phase == plan.Phase {
-						doCancel(plan.Kind == "op")
-					}
+			c.hook = func(k int, op, phase string) {
+				if (plan.Kind == "op" || plan.Kind == "unforced") && k == plan.K && phase == plan.Phase {
+					doCancel(plan.Kind == "op")
+					return
+				}
+				// If the context has already ended, let the watcher goroutine
+				// act before the operation proceeds: otherwise whether it runs
+				// before or after a non-blocking handshake is up to the Go
+				// scheduler (and, at the very end, to the runtime's choice
+				// between two ready select cases).
+				ended := ctx.Err() != nil || (sc.Timeout > 0 && time.Since(start) >= sc.Timeout)
+				if phase == "enter" && plan.Kind != "unforced" && ended {
+					synctest.Wait()
 				}
 			}
 			sim = c
@@ -465,7 +482,11 @@ func execute(sc scenario, plan cancelPlan) (o *outcome) {
 			d.WrapConn = func(c net.Conn) net.Conn { return wrapConn{c} }
 		}
 		if plan.Kind == "time" {
-			time.AfterFunc(plan.At, func() { doCancel(false) })
+			if plan.At == 0 {
+				doCancel(false) // before Dial starts; a zero timer would race with it
+			} else {
+				time.AfterFunc(plan.At, func() { doCancel(false) })
+			}
 		}
 		url := "ws://example.com/chat"
 		if sc.TLS {
@@ -532,6 +553,7 @@ func drawScenario(r *eng.Run) scenario {
 	sc.CtxKind = r.T.Int(sim.LCfg, 3)
 	sc.Peer = []int{0, 0, 0, 1, 2, 2, 3}[r.T.Int(sim.LCfg, 7)]
 	sc.ConnectDelay = []time.Duration{0, 50 * ms}[r.T.Int(sim.LDelay, 2)]
+	sc.IgnoreCtx = r.T.Chance(sim.LCfg, 1, 3)
 	sc.RespDelay = []time.Duration{0, 100 * ms, 300 * ms}[r.T.Int(sim.LDelay, 3)]
 	sc.Segs = 1 + r.T.Int(sim.LSeg, 4)
 	sc.Gap = []time.Duration{0, 100 * ms}[r.T.Int(sim.LDelay, 2)]
@@ -586,7 +608,8 @@ func C20(r *eng.Run) {
 	if canCancel {
 		plans = append(plans, cancelPlan{Kind: "afterReturn"})
 		ms := time.Millisecond
-		for _, at := range []time.Duration{0, 25 * ms, 75 * ms, 175 * ms, 325 * ms, 425 * ms, 2 * time.Second} {
+		// Instants that tie with no peer event, deadline or timeout instant.
+		for _, at := range []time.Duration{0, 13 * ms, 77 * ms, 173 * ms, 327 * ms, 423 * ms, 2003 * ms} {
 			plans = append(plans, cancelPlan{Kind: "time", At: at})
 		}
 		for k := 0; k < nops+1; k++ {
@@ -698,6 +721,9 @@ func check(r *eng.Run, sc scenario, plan cancelPlan, o *outcome) {
 	if sc.Timeout > 0 && (bound < 0 || sc.Timeout < bound) {
 		bound = sc.Timeout
 		r.Probe("timeout_is_the_bound")
+	}
+	if sc.IgnoreCtx && bound >= 0 && bound < sc.ConnectDelay {
+		bound = sc.ConnectDelay // a NetDial that ignores its context cannot be interrupted
 	}
 	if bound >= 0 && o.Returned > bound {
 		r.Failf("returned_late", "%s: Dial returned at t=%v, later than the first of context end / dial timeout (t=%v); err=%v; conn calls:%s", tag, o.Returned, bound, o.Err, trace)
